@@ -159,8 +159,9 @@ let run_case (line : string) : string =
   | "cls_lang" ->
     let l = rd_toks toks in
     "lang=" ^ b01 (in_language unpack l) ^ " flags=" ^ b01 (flags_token_unrecognized l) ^ " tol=" ^ b01 (config_error_tolerated unpack l)
+    ^ " regroup=" ^ b01 (in_language_regrouped unpack l)
   | "cls_rtrunc" -> let k = nat_of_int (cnt toks) in let m = rd_repl toks in "rb=" ^ b01 (at_record_boundary m k)
-  | "cls_rlang" -> let l = rd_toks toks in "lang=" ^ b01 (repl_in_language l)
+  | "cls_rlang" -> let l = rd_toks toks in "lang=" ^ b01 (repl_in_language l) ^ " flags=" ^ b01 (repl_flags_token_unrecognized l)
   | "cls_repl" -> let m = rd_repl toks in "wf=" ^ b01 (wf_repl m)
   | "cls_task" -> let t = rd_task toks in "wf=" ^ b01 (wf_task t) ^ " wfstr=" ^ b01 (wf_task_str t) ^ " compact=" ^ b01 (is_compact t.tm_sr.sr_ranges)
   | k -> "unknown-kind " ^ k
